@@ -385,6 +385,39 @@ theorem C07_spec_readers :
     (∀ v : CranSpec.V, CranSpec.specParse (CranSpec.render v) = some v) :=
   ⟨debian_specParse_render, rubygems_specParse_render, cran_specParse_render⟩
 
+/-! ## what "never crashes" is about for the seven index-free looking families
+
+The families of semver, NuGet, CRAN, RubyGems, Red Hat, Packagist and Debian RUN the Go-shaped
+functions (`…Go`), written with the failing primitives `goIndex` / `goSlice` / `goFetch` at the
+sites where the Go code indexes or slices (utilities.go:39 `slice[i]`, version.go `Fetch`,
+version-semver-like.go:43 `Components[:max]`, version-semver.go:29,75 `parts[0]`, `a[i]`,
+version-rubygems.go:70 `segs[i]`, `segs[:max(i,0)]`, version-redhat.go:120 `a[ai]` and the guarded
+`a[ai]` of the trimming / tilde / caret tests, version-packagist.go:79-113 `a[i]`, `a[len(b)]`,
+`a[len(b):]`, version-debian.go:35-85 `s[:i]`, `s[i+1:]`, `str[:i]`, `str[i:]`, `char[0]`); a
+`none` there is `.panic` in the family. `C07_<f>_total` for these families therefore rests on the
+theorem below: every one of those indices and slices is in range on every input (the guards make
+the failing branch unreachable), and the fuel of the two fuel-indexed Go-shaped loops is enough. -/
+theorem C07_go_sites_in_range :
+    (∀ m s, parseSemverGo m s = some (parseSemver m s)) ∧
+    (∀ v w, cmpSemverGo v w = some (cmpSemver v w)) ∧
+    (∀ v w, cmpNuGetGo v w = some (cmpNuGet v w)) ∧
+    (∀ v w, cmpCranGo v w = some (cmpCran v w)) ∧
+    (∀ s, rubySegsGo s = some (rubySegs s)) ∧
+    (∀ v w, cmpRubyGo v w = some (cmpRuby v w)) ∧
+    (∀ v w, cmpRHGo v w = some (cmpRH v w)) ∧
+    (∀ v w, cmpPkGoTop v w = some (cmpPkS v w)) ∧
+    (∀ s, parseDebGo s = some (parseDeb s)) ∧
+    (∀ v w, cmpDebGo v w = some (cmpDeb v w)) :=
+  ⟨parseSemverGo_eq, cmpSemverGo_eq, cmpNuGetGo_eq, cmpCranGo_eq, rubySegsGo_eq, cmpRubyGo_eq, cmpRHGo_eq,
+   fun v w => cmpPkGo_eq v w _ (Nat.le_refl _), parseDebGo_eq, cmpDebGo_eq⟩
+
+/-- non-vacuity: the primitives do fail, a failure is a crash of the family, and the loops WITHOUT
+their guards reach it (one position too many; `a[len(b)]` without `len(a) > len(b)`) -/
+example : goIndex ([] : List Char) 0 = none ∧ goSlice [1, 2] 0 3 = none ∧ goSlice [1, 2] 2 1 = none ∧
+    CRes.ofGo none = .panic ∧ (PRes.ofGo (none : Option SemV)).isPanic = true ∧
+    lexLoop pkElem [['1']] [] 1 0 = none ∧ goIndex [['1']] 1 = none ∧
+    rzLoop [['0']] 2 1 = none ∧ debWeighGo [] = some 2 ∧ goIndex ([] : List Char) 0 = none := by decide
+
 /-! ## the published grammar, and the total preorder in the vocabulary of `Spec/VersionOrder.lean`
 
 `Grammar f` (`Spec/Semantic/Grammar.lean`) is the PUBLISHED grammar for the seven families with a
